@@ -3,15 +3,17 @@
    Data()/ReadDirNames()) in [st_calls]; [st_fault = Some k] makes call number k fail.  [fired a b]: the
    failing call happened between states a and b.  The same fault index is injected into the implementation
    (plain Store and TransactionStore) and the model on every history of the check.
-   PROVED (all states, paths, fault indices): a fault that fires inside Mkdir, Remove, Chmod or Chtimes makes
-   the operation return an error and leaves every record of the store as it was; the fault fires at most
+   PROVED (all states, paths, fault indices): a fault that fires inside Mkdir, Remove, Chmod, Chtimes or the Rename
+   of a regular file makes
+   the operation return an error and leaves every record of the store as it was; a reported success of Mkdir,
+   Remove or Chmod implies the record is (not) in the store afterwards, whatever failed; the fault fires at most
    once, so everything afterwards is the fault-free model; the model's step function has no panic outcome
    (an implementation panic can therefore never agree with it).
-   NOT proved: the same statement for OpenFile, WriteFile, Rename, MkdirAll, RemoveAll and the handle
+   NOT proved: the same statement for OpenFile, WriteFile, Rename of directories, MkdirAll, RemoveAll and the handle
    operations -- there the code deliberately ignores failures of look-ups it did not need (the prefetched
    parent of an existing file, ancestors above the first existing directory), which the check's oracle
    treats as immaterial when result and store equal the failure-free ones. *)
-From HP Require Import Base.Prelude Base.Path KV.Types KV.FS KV.Handle KV.Run KV.Corr KV.FaultProofs.
+From HP Require Import Base.Prelude Base.Path KV.Types KV.FS KV.Handle KV.Run KV.Corr KV.FaultProofs KV.FaultRename KV.FaultEffects.
 Open Scope N_scope.
 
 Theorem C14_mkdir_reports_the_failing_store_call : forall st p perm,
@@ -37,6 +39,31 @@ Theorem C14_chtimes_reports_the_failing_store_call : forall st p t,
   snd (kv_chtimes st p t) <> None /\ st_store (fst (kv_chtimes st p t)) = st_store st.
 Proof. exact chtimes_fault_is_reported. Qed.
 Print Assumptions C14_chtimes_reports_the_failing_store_call.
+
+(* Rename of a regular file (two names, several look-ups, two Sets): if the failing call happens during it and
+   it still reports success then the source was a directory -- for a file every failed call is reported *)
+Theorem C14_rename_of_a_file_reports_the_failing_store_call : forall fuel st o n,
+  o <> n -> fired st (fst (kv_rename (Datatypes.S fuel) st o n)) ->
+  snd (kv_rename (Datatypes.S fuel) st o n) = None ->
+  exists rc, lookup (st_store st) o = Some rc /\ is_dir (r_mode rc) = true.
+Proof. exact rename_file_fault_is_reported. Qed.
+Print Assumptions C14_rename_of_a_file_reports_the_failing_store_call.
+
+(* success => effect, in every state and for every fault: what is reported as done is in the store *)
+Theorem C14_mkdir_success_means_stored : forall st p perm, snd (kv_mkdir st p perm) = None ->
+  exists rc, lookup (st_store (fst (kv_mkdir st p perm))) p = Some rc /\ is_dir (r_mode rc) = true.
+Proof. exact mkdir_success_means_stored. Qed.
+Print Assumptions C14_mkdir_success_means_stored.
+
+Theorem C14_remove_success_means_gone : forall st p, snd (kv_remove st p) = None ->
+  lookup (st_store (fst (kv_remove st p))) p = None.
+Proof. exact remove_success_means_gone. Qed.
+Print Assumptions C14_remove_success_means_gone.
+
+Theorem C14_chmod_success_means_stored : forall st p m, snd (kv_chmod st p m) = None ->
+  exists rc, lookup (st_store (fst (kv_chmod st p m))) p = Some rc /\ N.land (r_mode rc) chmod_bits = N.land m chmod_bits.
+Proof. exact chmod_success_means_stored. Qed.
+Print Assumptions C14_chmod_success_means_stored.
 
 (* a rejected Set changes nothing and is reported; a failed Get is reported as a non-ENOENT error *)
 Theorem C14_rejected_set_is_reported : forall st p r,
